@@ -1,6 +1,6 @@
 (** Properties/C11.v — "An object's value does not depend on how it is stored". *)
 From PdfV Require Import Base.Prelude Gen.Generated Lex.Lexer Lex.LexProofs Syn.Prim Syn.Parser Syn.Spells Syn.ParserProofs Syn.RenderProofs Syn.StreamProofs
-  ObjStm.Model ObjStm.Proofs.
+  Codec.Model Codec.Dispatch ObjStm.Model ObjStm.Proofs ObjStm.Filtered.
 
 (** compressed storage: for every object stream whose header lists the members' offsets, member i — written in any
     conforming spelling, at any position (first, middle, last), followed by any white-space or none — resolves to the value
@@ -65,6 +65,23 @@ Theorem C11_stream_length : forall d1 body1 d2 body2 a b id gen,
       firstn (length data) (skipn (N.to_nat (st2 - lpos t3)) (lrest t3)) = data.
 Proof. exact stream_data_independent_of_length_storage. Qed.
 Print Assumptions C11_stream_length.
+
+(** … with any filter on that stream: the payload encoded by any of the crate's encoders (ASCIIHex, ASCII85 unconditionally;
+    Flate, LZW under the oracle premises of C16: the external decoder inverts the external encoder) and decoded by the stream's
+    filter chain gives member i the same value *)
+Theorem C11_member_any_filter : forall inflate_zlib inflate_raw deflate_zlib lzw_dec lzw_enc f R head texts i v its body ws_tail n e,
+    (forall y, inflate_zlib (deflate_zlib y) = Ok y) ->
+    (forall y c, lzw_enc y = Ok c -> lzw_dec false c = Ok y) ->
+    standard_filter f -> wf_bytes (head ++ concat texts) ->
+    encode deflate_zlib lzw_enc f (head ++ concat texts) = Ok e ->
+    header_offsets n (mkLx 0 (head ++ concat texts)) = Ok (offs_of texts 0) ->
+    nth_error texts i = Some (body ++ ws_tail) ->
+    spells v its -> vdepth v <= MAX_DEPTH -> renders its (body ++ ws_tail) ws_tail ->
+    Forall (fun b => is_ws b = true) ws_tail ->
+    lenN (head ++ concat texts) < USIZE ->
+    resolve_member_filtered inflate_zlib inflate_raw lzw_dec [f] R F_ANY (lenN head) (N.of_nat n) e (N.of_nat i) = Ok v.
+Proof. exact member_resolves_filtered. Qed.
+Print Assumptions C11_member_any_filter.
 
 Theorem C11_slice_no_panic : forall first offsets datalen index site,
   object_slice first offsets datalen index <> Panic site.
